@@ -5,6 +5,8 @@
 //!   (c16-scan "Name" "qml")               token scan of the real header: calls/definitions, index enum, guard and
 //!                                         observer array sizes, includes                                          [oracle]
 //!   (c16-inv "qml" "Name" (objs ...))     header inventory of the real header vs the Lean model (Model.CxxEmit)   [model]
+//!                                         incl. the name-split families: one identifier split differently between object id
+//!                                         and binding path (plain / gadget map / gadget member / callback, with digits)
 //!   (c16-literals "s"...)                 every emitted spelling of the source strings is compiled AND RUN: the UTF-16
 //!                                         units of QStringLiteral(...) / the bytes of narrow literals = the source  [oracle]
 //!   (c16-lit "s")                         spelling of the source string in the real header vs Model.formatStringLiteral [model]
@@ -72,6 +74,12 @@ pub fn c16_classes() -> Vec<metatype::Class> {
         ("ints2", "QList<int>"), ("var", "QVariant"), ("g", "WGadget"), ("g2", "WGadget"),
         ("title", "QString"), ("title1", "QString"), ("windowTitle1", "QString"), ("p1", "int"), ("p11", "int"), ("gBold", "bool"),
         ("bold", "bool"), ("gLabel", "QString"),
+        // name-split families (see split_candidates): gadget (QFont) properties, plain properties and signals whose
+        // names are concatenations of the words cur/font/bold/family/x/title/changed (+ a digit)
+        ("curFont", "QFont"), ("xCurFont", "QFont"), ("curFont1", "QFont"), ("font1", "QFont"),
+        ("fontBold", "bool"), ("curFontBold", "bool"), ("xCurFontBold", "bool"), ("bold1", "bool"), ("fontBold1", "bool"),
+        ("curFontBold1", "bool"), ("fontFamily", "QString"), ("curFontFamily", "QString"), ("family", "QString"),
+        ("xTitle", "QString"), ("changed", "int"), ("boldChanged1", "int"),
     ];
     for (n, t) in &typed {
         base.properties.push(prop(n, t, true));
@@ -1105,6 +1113,14 @@ fn operator_probes() -> Vec<(String, String)> {
         ("statement", "s", "{ switch (sb.value) { case 0: return \"zero\"; case 1: case 2: return le.text; default: break; } return \"many\" }"),
         ("statement", "onFired", "{ let p = cb.checked ? v : null; if (p !== null) { p.i = 1 } }"),
         ("statement", "onFired", "{ switch (v.mode) { case WBase.ModeA: v.i = 1; break; case WBase.ModeB: v.i = 2; default: v.i = 3 } }"),
+        ("gadget-block", "font.pointSize", "{ if (cb.checked) { return 20 } else { return sb.value } }"),
+        ("gadget-block", "font.pointSize", "{ if (cb.checked) return 20; return sb.value }"),
+        ("gadget-block", "font.family", "{ switch (sb.value) { case 0: return \"a\"; case 1: return le.text + \"b\"; default: return le.text } }"),
+        ("gadget-block", "font.bold", "{ let c = cb.checked; if (c) { if (sb.value > 1) return true; return false } return v.b }"),
+        ("gadget-block", "sizePolicy.horizontalStretch", "{ if (cb.checked) return sb.value; return Math.min(sb.value, 3) }"),
+        ("gadget-block", "font.pointSize", "{ if (cb.checked) return 20; }"),
+        ("gadget-block", "font.family", "{ if (cb.checked) { return le.text } }"),
+        ("gadget-block", "indent", "{ if (cb.checked) return 20; }"),
         ("observer", "s", "(cb.checked ? le : le2).text"), ("observer", "s", "(cb.checked ? le : le2).text + (cb2.checked ? le2 : le).text + v.next.s"),
         ("observer", "i", "v.next.next.i + (cb.checked ? v : v2).next.i"), ("observer", "b", "{ let w = cb.checked ? v : null; return w !== null ? w.b : false }"),
         ("callback-args", "onFired2", "function(n: int, s: QString) { v.setBoth(n, s) }"), ("callback-args", "onFired2", "function(n: int) { v.i = n }"),
@@ -1272,6 +1288,22 @@ fn collision_docs() -> Vec<String> {
             .child(Obj::new("WBase").with_id("w").bind("q1", "sb.value").bind("q11", "sb.value"))
             .to_qml(),
         with_fixture(Obj::new("QWidget").with_id("foo").bind("windowTitle", "le.text")).child(Obj::new("QGroupBox").with_id("fooWindow").bind("title", "le2.text")).to_qml(),
+        // two gadget maps: title + currentFont / titleCurrent + font
+        root()
+            .child(Obj::new("QFontComboBox").with_id("title").bind("currentFont.bold", "cb.checked"))
+            .child(Obj::new("QLabel").with_id("titleCurrent").bind("font.bold", "cb.checked").bind("font.family", "le.text"))
+            .to_qml(),
+        root()
+            .child(Obj::new("QLabel").with_id("titleCurrent").bind("font.italic", "cb.checked"))
+            .child(Obj::new("QFontComboBox").with_id("title").bind("currentFont.italic", "cb2.checked").bind("currentFont.family", "le.text"))
+            .child(Obj::new("QLabel").with_id("titleCurrentFont").bind("text", "le.text"))
+            .to_qml(),
+        // anonymous objects get generated names with digits (label, label1)
+        root()
+            .child(Obj::new("QLabel").bind("font.bold", "cb.checked").bind("text", "le.text"))
+            .child(Obj::new("QLabel").bind("font.bold", "cb.checked").bind("text", "le.text"))
+            .child(Obj::new("QLabel").with_id("label1Font").bind("text", "le.text").bind("wordWrap", "cb.checked"))
+            .to_qml(),
     ]
 }
 
@@ -1348,6 +1380,195 @@ fn callback_templates(rng: &mut Rng, lit: &dyn Fn(&mut Rng) -> (String, String))
         ("onTitleChanged", "titleChanged", "v.reset()".into(), vec![], vec![]),
         ("onWindowTitleChanged", "windowTitleChanged", "function(t: QString) { v.s = t }".into(), vec![], vec![]),
     ]
+}
+
+// ---- name-split families: every way two DIFFERENT (object, binding path) pairs concatenate to the same identifier
+
+fn camel(words: &[&str]) -> String {
+    let mut out = String::new();
+    for (k, w) in words.iter().enumerate() {
+        if k == 0 {
+            out.push_str(w);
+        } else {
+            out.push_str(&qmluic::qtname::to_ascii_capitalized(w));
+        }
+    }
+    out
+}
+
+#[derive(Clone, Debug, PartialEq)]
+enum SplitKind {
+    /// value type
+    Plain(&'static str),
+    /// gadget member: value type
+    Gadget(&'static str),
+    /// signal name
+    Callback(String),
+}
+
+const SPLIT_PLAIN: &[(&str, &str)] = &[
+    ("bold", "bool"), ("bold1", "bool"), ("fontBold", "bool"), ("fontBold1", "bool"), ("curFontBold", "bool"), ("curFontBold1", "bool"),
+    ("xCurFontBold", "bool"), ("family", "QString"), ("fontFamily", "QString"), ("curFontFamily", "QString"), ("title", "QString"),
+    ("title1", "QString"), ("xTitle", "QString"), ("changed", "int"), ("boldChanged1", "int"),
+];
+const SPLIT_GADGETS: &[&str] = &["font", "font1", "curFont", "curFont1", "xCurFont"];
+const SPLIT_MEMBERS: &[(&str, &str)] = &[("bold", "bool"), ("family", "QString"), ("italic", "bool")];
+const SPLIT_SIGNALS: &[&str] = &[
+    "boldChanged", "fontBoldChanged", "curFontBoldChanged", "xCurFontBoldChanged", "changedChanged", "titleChanged", "xTitleChanged",
+    "familyChanged", "fontFamilyChanged",
+];
+
+/// All (object id, left-hand side, kind) whose `Capitalised(object) + Capitalised(path…)` is the concatenation of
+/// `words` (optionally followed by the digit 1): the object id takes the first i words, the binding the rest — as a
+/// plain property, as gadget property + member (every cut; the digit may end the member or the gadget name), or as a
+/// signal callback.
+fn split_candidates(words: &[&str], digit: bool) -> Vec<(String, String, SplitKind)> {
+    let mut out = vec![];
+    let suffix = if digit { "1" } else { "" };
+    for i in 1..words.len() {
+        let obj = camel(&words[..i]);
+        let rem = &words[i..];
+        let whole = format!("{}{suffix}", camel(rem));
+        if let Some((_, t)) = SPLIT_PLAIN.iter().find(|(n, _)| *n == whole) {
+            out.push((obj.clone(), whole.clone(), SplitKind::Plain(t)));
+        }
+        if !digit && SPLIT_SIGNALS.contains(&whole.as_str()) {
+            out.push((obj.clone(), format!("on{}", qmluic::qtname::to_ascii_capitalized(&whole)), SplitKind::Callback(whole.clone())));
+        }
+        for j in 1..rem.len() {
+            let g = camel(&rem[..j]);
+            let m = camel(&rem[j..]);
+            if !digit {
+                if let (true, Some((_, t))) = (SPLIT_GADGETS.contains(&g.as_str()), SPLIT_MEMBERS.iter().find(|(n, _)| *n == m)) {
+                    out.push((obj.clone(), format!("{g}.{m}"), SplitKind::Gadget(t)));
+                }
+            } else {
+                // generated `TCurFont1` vs the property `curFont1`
+                let g1 = format!("{g}1");
+                if let (true, Some((_, t))) = (SPLIT_GADGETS.contains(&g1.as_str()), SPLIT_MEMBERS.iter().find(|(n, _)| *n == m)) {
+                    out.push((obj.clone(), format!("{g1}.{m}"), SplitKind::Gadget(t)));
+                }
+            }
+        }
+    }
+    out
+}
+
+/// A document made of several splits of ONE identifier (and of its prefixes), so that the prefixes passed to the
+/// name generator collide — across plain bindings, gadget maps, gadget sub-bindings, callbacks and observers.
+fn split_family_doc(rng: &mut Rng) -> (String, Sexp) {
+    let families: [&[&str]; 8] = [
+        &["t", "cur", "font", "bold"],
+        &["t", "x", "cur", "font", "bold"],
+        &["t", "cur", "font", "family"],
+        &["t", "font", "bold", "changed"],
+        &["t", "cur", "font", "bold", "changed"],
+        &["t", "x", "title", "changed"],
+        &["t", "font", "family"],
+        &["label1", "font", "bold"],
+    ];
+    let words = *rng.pick(&families);
+    let mut cands: Vec<(String, String, SplitKind)> = vec![];
+    // the identifier itself and its proper prefixes (gadget names `T Cur Font`, sub-binding prefixes), without and with digit
+    for len in 2..=words.len() {
+        for digit in [false, true] {
+            for c in split_candidates(&words[..len], digit) {
+                if !cands.contains(&c) {
+                    cands.push(c);
+                }
+            }
+        }
+    }
+    rng.shuffle(&mut cands);
+    let take = 2 + rng.below(7);
+    let lit = |rng: &mut Rng| -> (String, String) {
+        let s = gen_string(rng);
+        let q = qml_string_literal(&s, rng.below(6) as u32);
+        (s, q)
+    };
+    #[allow(clippy::type_complexity)]
+    let mut objs: Vec<(String, Obj, Vec<(String, Code)>, Vec<(String, Vec<&'static str>, Vec<(bool, String)>)>)> = vec![];
+    for (obj, lhs, kind) in cands.into_iter().take(take) {
+        let idx = match objs.iter().position(|o| o.0 == obj) {
+            Some(i) => i,
+            None => {
+                objs.push((obj.clone(), Obj::new("WBase").with_id(&obj), vec![], vec![]));
+                objs.len() - 1
+            }
+        };
+        match &kind {
+            SplitKind::Callback(sig) => {
+                let (rhs, uses, lits) = if rng.chance(1, 2) {
+                    ("v.reset()".to_owned(), vec![], vec![])
+                } else {
+                    let (ls, lq) = lit(rng);
+                    (format!("console.log({lq})"), vec!["log"], vec![(false, ls)])
+                };
+                objs[idx].1.bindings.push((lhs, rhs));
+                objs[idx].3.push((sig.clone(), uses, lits));
+            }
+            SplitKind::Plain(ty) | SplitKind::Gadget(ty) => {
+                let (rhs, code) = match *ty {
+                    "bool" => match rng.below(3) {
+                        0 => ("cb.checked".to_owned(), Code::Expr(true, 0, vec![], vec![])),
+                        1 => ("(cb.checked ? cb : cb2).checked".to_owned(), Code::Expr(true, 1, vec![], vec![])),
+                        _ => ("v.next.b && (cb2.checked ? v : v2).b".to_owned(), Code::Expr(true, 2, vec![], vec![])),
+                    },
+                    "QString" => match rng.below(3) {
+                        0 => ("le.text".to_owned(), Code::Expr(true, 0, vec![], vec![])),
+                        1 => {
+                            let (ls, lq) = lit(rng);
+                            (format!("le.text + {lq}"), Code::Expr(true, 0, vec![], vec![(true, ls)]))
+                        }
+                        _ => ("(cb.checked ? le : le2).text".to_owned(), Code::Expr(true, 1, vec![], vec![])),
+                    },
+                    _ => ("Math.max(sb.value, sb2.value)".to_owned(), Code::Expr(true, 0, vec!["max"], vec![])),
+                };
+                objs[idx].1.bindings.push((lhs.clone(), rhs));
+                let path: Vec<&str> = lhs.split('.').collect();
+                insert_path(&mut objs[idx].2, &path, code);
+            }
+        }
+    }
+    rng.shuffle(&mut objs);
+    let mut root = Obj::new("QWidget").with_id("root");
+    let mut descr = vec![];
+    for (name, mut o, props, cbs) in objs {
+        rng.shuffle(&mut o.bindings);
+        root.children.push(o);
+        descr.push(node("o", vec![
+            st(name),
+            node("props", props.iter().map(|(n, c)| node("p", vec![st(n.clone()), c.sexp()])).collect()),
+            node("cbs", cbs.iter().map(|(sig, uses, lits)| node("cb", vec![
+                st(sig.clone()),
+                node("uses", uses.iter().map(|u| atom(*u)).collect()),
+                node("lits", lits.iter().map(|(q, s)| node(if *q { "q" } else { "c" }, vec![st(s.clone())])).collect()),
+            ])).collect()),
+        ]));
+    }
+    (with_fixture(root).to_qml(), node("objs", descr))
+}
+
+/// bodies whose return type cannot be verified must be REJECTED — in a gadget sub-binding exactly as in a plain one
+fn must_reject_docs() -> Vec<(String, &'static str)> {
+    let mut v = vec![];
+    for (lhs, rhs, needle) in [
+        ("font.pointSize", "{ if (cb.checked) return 20; }", "cannot deduce return type from 'integer' and 'void'"),
+        ("indent", "{ if (cb.checked) return 20; }", "cannot deduce return type from 'integer' and 'void'"),
+        ("font.family", "{ switch (sb.value) { case 0: return \"a\"; case 1: break; default: return le.text } }", "cannot deduce return type from 'QString' and 'void'"),
+        ("text", "{ switch (sb.value) { case 0: return \"a\"; case 1: break; default: return le.text } }", "cannot deduce return type from 'QString' and 'void'"),
+        ("font.bold", "{ if (cb.checked) return 1; return false }", "cannot deduce return type from 'integer' and 'bool'"),
+        ("font.bold", "sb.value", "expression type mismatch (expected: bool, actual: int)"),
+        ("wordWrap", "sb.value", "expression type mismatch (expected: bool, actual: int)"),
+        ("font.family", "{ if (cb.checked) { return le.text } else { return sb.value } }", "cannot deduce return type from 'QString' and 'int'"),
+        ("font.pointSize", "{ if (cb.checked) { return 1 } }", "cannot deduce return type"),
+        ("sizePolicy.horizontalStretch", "{ if (cb.checked) return sb.value; }", "cannot deduce return type from 'int' and 'void'"),
+        ("sizePolicy.horizontalStretch", "le.text", "expression type mismatch (expected: int, actual: QString)"),
+    ] {
+        let doc = with_fixture(Obj::new("QWidget").with_id("root")).child(Obj::new("QLabel").with_id("t").bind(lhs, rhs)).to_qml();
+        v.push((doc, needle));
+    }
+    v
 }
 
 fn insert_path(ms: &mut Vec<(String, Code)>, path: &[&str], leaf: Code) {
@@ -1528,6 +1749,25 @@ impl Stream for C16 {
             if made % 3 == 0 {
                 inv_docs.push((format!("I{made}"), src));
             }
+        }
+        // name-split families: every document goes to the model, the scan and the compiler
+        let nsplit = if thorough { 1500 } else { 160 };
+        let mut k = 0u64;
+        let mut made = 0;
+        while made < nsplit && k < (nsplit as u64) * 4 {
+            let mut rng = Rng::fork(seed, "c16-split", k);
+            k += 1;
+            let (src, objs) = split_family_doc(&mut rng);
+            if self.translate("Inv", &src).is_none() {
+                continue;
+            }
+            made += 1;
+            cases.push(Case { kind: "model", labels: vec!["inventory".into(), "name-split".into()], request: node("c16-inv", vec![st(src.clone()), st("Inv"), objs]) });
+            cases.push(Case { kind: "oracle", labels: vec!["scan".into(), "name-split".into()], request: node("c16-scan", vec![st("Inv"), st(src.clone())]) });
+            inv_docs.push((format!("S{made}"), src));
+        }
+        for (doc, needle) in must_reject_docs() {
+            cases.push(Case { kind: "oracle", labels: vec!["must-reject".into()], request: node("c16-rejects", vec![st(doc), st(needle)]) });
         }
         for chunk in inv_docs.chunks(40) {
             cases.push(Case { kind: "oracle", labels: vec!["inventory".into(), "literals-in-documents".into()], request: docs_request(chunk) });
